@@ -1,4 +1,5 @@
 import CV.Proofs.Auth
+import CV.Proofs.AuthLeavesCreds
 import CV.Proofs.Session
 import CV.Model.VHost
 /-
@@ -8,7 +9,11 @@ Every theorem below is about the executable models in CV/Model/{Auth,Session,VHo
 they follow the code AFTER the three `fix:` commits (`Policy.current`), for ALL inputs:
 every header text, user table, realm, method, `encrypt` variant, every instantiation of the
 stdlib leaves (`H` = md5, base64, utf-8, the Digest tokeniser) and of `W` = sha1; every
-history of requests; every gateway list.  The `legacy_*_witness` theorems show that the same
+history of requests; every gateway list.  The section "on the header text" instantiates the
+leaves with the executable definitions of CV/Model/AuthLeaves.lean (`concreteLeaves`:
+binascii.a2b_base64, strict UTF-8, parse_http_list / parse_keqv_list, md5 - each compared with
+the real stdlib function on every run) and states soundness and completeness about the very
+header a Basic / RFC 2617 Digest client sends.  The `legacy_*_witness` theorems show that the same
 statements are FALSE of the code as it was found (`Policy.legacy`).
 -/
 namespace CV.C20
@@ -137,6 +142,213 @@ theorem legacy_none_password_witness :
     let L : Leaves := ⟨id, fun _ => none, fun _ => none, fun _ => some kv⟩
     checkAuth Policy.legacy L .dflt "R".toList "GET".toList [("bob".toList, "pw".toList)]
       (some "Digest x".toList) = .ok "mallory".toList := by decide
+
+/-! ## Authentication on the header text: the stdlib leaves inside the model -/
+
+/-- `base64.decodebytes` (binascii.a2b_base64, non-strict) inverts the RFC 4648 encoder. -/
+theorem b64_roundtrip (bs : Bytes) : a2bBase64 (b64Encode bs) = some bs := a2b_encode bs
+
+/-- strict UTF-8 decoding inverts encoding, for every text (all code points, no surrogates:
+    `Char`). -/
+theorem utf8_roundtrip (s : Str) : utf8Decode (utf8Encode s) = some s := decode_encode s
+
+/-- `parse_keqv_list(parse_http_list(·))` reads back every well-formed parameter list
+    (names: token characters without '='; unquoted values: non-empty tokens; quoted values:
+    ANY text, `"` and `\` sent as quoted-pairs) rendered as `k=v, k="v", …`: the result is
+    the dict of the pairs (a repeated name keeps its first position and its last value). -/
+theorem kv_roundtrip (items : List Item) (hok : ∀ i ∈ items, i.ok = true) :
+    kvLeaf (renderItems items) = some (dictOf (itemsKV items)) := kvLeaf_render items hok
+
+/-- ... and with distinct names it is the list itself. -/
+theorem kv_roundtrip_distinct (items : List Item) (hok : ∀ i ∈ items, i.ok = true)
+    (hnd : (items.map (·.k)).Nodup) :
+    kvLeaf (renderItems items) = some (itemsKV items) := by
+  rw [kvLeaf_render items hok, dictOf_nodup]
+  simpa [itemsKV, List.map_map, Function.comp_def] using hnd
+
+/-- non-vacuity of `kv_roundtrip`: a quoted comma, an escaped quote, an unquoted token -/
+example :
+    let items : List Item := [⟨"a".toList, "x, \"y\"\\".toList, true⟩, ⟨"qop".toList, "auth".toList, false⟩]
+    (∀ i ∈ items, i.ok = true) ∧ renderItems items = "a=\"x, \\\"y\\\"\\\\\", qop=auth".toList ∧
+    kvLeaf (renderItems items) = some [("a".toList, "x, \"y\"\\".toList), ("qop".toList, "auth".toList)] := by decide
+
+/-- **Basic, on the header text.**  The request carrying the header a Basic client builds for
+    `user` / `pass` (`'Basic ' + b64encode((user + ':' + pass).encode())`; the user name has no
+    ':' - the code splits at the first one) is accepted, as `user`, exactly when the table has
+    an entry for `user` equal to the encrypted password.  Both directions are `auth_login_sound` /
+    `auth_complete` at `concreteLeaves`. -/
+theorem basic_concrete (enc : Enc) (realm method : Str) (users : List (Str × Str)) (user pass : Str)
+    (hu : ':' ∉ user) :
+    checkAuth Policy.current concreteLeaves enc realm method users (some (basicHeader user pass)) = .ok user
+      ↔ ∃ stored, users.lookup user = some stored ∧ encApply md5Hex enc pass user = some stored := by
+  have hc := creds_basicHeader user pass hu
+  constructor
+  · intro h
+    obtain ⟨cred, c, p, h1, h2, _, h4, h5⟩ := auth_login_sound concreteLeaves enc realm method users _ user h
+    cases h1
+    rw [hc] at h2
+    cases h2
+    refine ⟨p, h4, ?_⟩
+    simp only [Verifies, beq_self_eq_true, Bool.true_and, beq_iff_eq] at h5
+    exact h5
+  · rintro ⟨stored, hl, he⟩
+    apply (auth_complete concreteLeaves enc realm method users _ user _).1
+    have hd : enc ≠ .dflt := by
+      intro e; subst e; simp [encApply] at he
+    have hv : Verifies concreteLeaves.H enc (.basic user pass) user stored realm method = true := by
+      simp only [Verifies, beq_self_eq_true, Bool.true_and, beq_iff_eq]
+      exact he
+    simp [mustAccept, hc, AuthMap.username, hl, wellFormed, hd, hv]
+
+/-- ... with a plain-text table (`encrypt=str`): accepted iff the table maps `user` to `pass`. -/
+theorem basic_concrete_plain (realm method : Str) (users : List (Str × Str)) (user pass : Str)
+    (hu : ':' ∉ user) :
+    checkAuth Policy.current concreteLeaves .ident realm method users (some (basicHeader user pass)) = .ok user
+      ↔ users.lookup user = some pass := by
+  rw [basic_concrete .ident realm method users user pass hu]
+  simp [encApply]
+
+/-- `basic_auth` lets the Basic client's request through exactly in that case. -/
+theorem basic_auth_concrete (enc : Enc) (realm method : Str) (users : List (Str × Str)) (user pass : Str)
+    (hu : ':' ∉ user) :
+    basicAuth Policy.current concreteLeaves enc realm method users (some (basicHeader user pass)) = .letThrough
+      ↔ ∃ stored, users.lookup user = some stored ∧ encApply md5Hex enc pass user = some stored := by
+  rw [← basic_concrete enc realm method users user pass hu]
+  constructor
+  · intro h
+    have ht : (checkAuth Policy.current concreteLeaves enc realm method users (some (basicHeader user pass))).truthy
+        = some true := by
+      unfold basicAuth at h
+      split at h
+      · cases h
+      · assumption
+      · split at h <;> cases h
+    obtain ⟨u, hu'⟩ := truthy_ok ht
+    obtain ⟨cred, c, p, h1, h2, h3, _, _⟩ := auth_login_sound concreteLeaves enc realm method users _ u hu'
+    cases h1
+    rw [creds_basicHeader user pass hu] at h2
+    cases h2
+    rw [hu']; exact congrArg _ h3.symm
+  · intro h
+    simp [basicAuth, h, Out.truthy]
+
+/-- non-vacuity / the ':' caveat: the header of user `a:b` with password `c` IS the header of
+    user `a` with password `b:c` -/
+example : basicHeader "a:b".toList "c".toList = basicHeader "a".toList "b:c".toList
+    ∧ basicHeader "a".toList "b".toList = "Basic YTpi".toList
+    ∧ checkAuth Policy.current concreteLeaves .ident "R".toList "GET".toList [("ü".toList, "pä:€".toList)]
+        (some (basicHeader "ü".toList "pä:€".toList)) = .ok "ü".toList :=
+  ⟨by decide, by decide, (basic_concrete_plain _ _ _ _ _ (by decide)).2 (by decide)⟩
+
+/-- **Digest, on the header text.**  For every well-formed parameter list (distinct names)
+    that makes up a complete Digest credential, the request carrying
+    `'Digest ' + 'k="v", …'` is accepted as `u` exactly when the username parameter is `u`, the
+    realm parameter is the configured realm, the table has a password for `u`, and the
+    response parameter equals the model's `_computeDigestResponse` for THAT password.
+    Both directions are `auth_login_sound` / `auth_complete` at `concreteLeaves`. -/
+theorem digest_concrete (items : List Item) (hok : ∀ i ∈ items, i.ok = true)
+    (hnd : (items.map (·.k)).Nodup) (hw : wellFormedKV (itemsKV items) = true)
+    (enc : Enc) (realm method : Str) (users : List (Str × Str)) (u : Str) :
+    checkAuth Policy.current concreteLeaves enc realm method users (some (digestHeader items)) = .ok u
+      ↔ get (itemsKV items) "username" = some u ∧ get (itemsKV items) "realm" = some realm ∧
+        ∃ p r, users.lookup u = some p ∧ get (itemsKV items) "response" = some r ∧
+          computeResponse md5Hex (itemsKV items) p method = .val r := by
+  have hc := creds_digestHeader items hok hnd
+  constructor
+  · intro h
+    obtain ⟨cred, c, p, h1, h2, _, h4, h5⟩ := auth_login_sound concreteLeaves enc realm method users _ u h
+    cases h1
+    rw [hc] at h2
+    cases h2
+    simp only [Verifies, Bool.and_eq_true, beq_iff_eq] at h5
+    obtain ⟨⟨⟨hu, hr⟩, _⟩, hresp⟩ := h5
+    exact ⟨hu, hr, p, _, h4, hresp, rfc_compute hw hu hr⟩
+  · rintro ⟨hu, hr, p, r, hl, hresp, hcomp⟩
+    apply (auth_complete concreteLeaves enc realm method users _ u _).1
+    have hrr : r = rfcResponse md5Hex (itemsKV items) u p realm method := by
+      have := rfc_compute (H := md5Hex) (pw := p) (method := method) hw hu hr
+      rw [hcomp] at this
+      cases this; rfl
+    have hsup : supported (itemsKV items) = true := by
+      simp only [wellFormedKV, Bool.and_eq_true] at hw
+      exact hw.1.1.1.1.2
+    have hv : Verifies concreteLeaves.H enc (.digest (itemsKV items)) u p realm method = true := by
+      simp only [Verifies, hu, hr, hsup, hresp, hrr, beq_self_eq_true, Bool.and_self, concreteLeaves]
+    simp [mustAccept, hc, AuthMap.username, hu, hl, wellFormed, hw, hv]
+
+/-- **The RFC 2617 client, any response text.**  The header with the client's parameters (RFC
+    order and quoting) and response parameter `resp` is accepted as the client's user exactly
+    when the realm is the configured one, the table has a password for the user, and `resp`
+    is the RFC 2617 3.2.2.1 request-digest (= the model's `_computeDigestResponse`) for the
+    TABLE's password. -/
+theorem digest_client_response_concrete (c : Client) (hc : c.ok = true) (resp : Str)
+    (enc : Enc) (realm method : Str) (users : List (Str × Str)) :
+    checkAuth Policy.current concreteLeaves enc realm method users (some (digestHeader (c.items resp))) = .ok c.user
+      ↔ c.realm = realm ∧ ∃ p, users.lookup c.user = some p ∧ c.response md5Hex p method = resp := by
+  have hg := client_fields c resp
+  have hwf := client_wellFormed c hc resp
+  rw [digest_concrete _ (client_items_ok c hc _) (client_items_nodup c _) hwf]
+  constructor
+  · rintro ⟨_, hr, p, r, hl, hresp, hcomp⟩
+    rw [hg.2.1] at hr
+    rw [hg.2.2] at hresp
+    rw [rfc_compute hwf hg.1 hg.2.1, client_rfcResponse] at hcomp
+    have e1 : c.realm = realm := Option.some.inj hr
+    have e2 : resp = r := Option.some.inj hresp
+    have e3 := Res.val.inj hcomp
+    exact ⟨e1, p, hl, e3.trans e2.symm⟩
+  · rintro ⟨hr, p, hl, hresp⟩
+    refine ⟨hg.1, hr ▸ hg.2.1, p, resp, hl, hg.2.2, ?_⟩
+    rw [rfc_compute hwf hg.1 hg.2.1, client_rfcResponse]
+    exact congrArg _ hresp
+
+/-- **The RFC 2617 client.**  The header the client model sends for password `pw`
+    (request-digest per 3.2.2.1 with `H` = md5) is accepted as the client's user exactly when
+    the realm is the configured one and the table holds, for that user, a password with the
+    same request-digest (the same password, md5 collisions aside). -/
+theorem digest_client_concrete (c : Client) (hc : c.ok = true) (pw : Str)
+    (enc : Enc) (realm method : Str) (users : List (Str × Str)) :
+    checkAuth Policy.current concreteLeaves enc realm method users (some (c.header md5Hex pw method)) = .ok c.user
+      ↔ c.realm = realm ∧ ∃ p, users.lookup c.user = some p ∧
+          c.response md5Hex p method = c.response md5Hex pw method :=
+  digest_client_response_concrete c hc (c.response md5Hex pw method) enc realm method users
+
+/-- Completeness for the client: with the table's password the client is accepted ... -/
+theorem digest_client_accepted (c : Client) (hc : c.ok = true) (pw : Str)
+    (enc : Enc) (method : Str) (users : List (Str × Str)) (hl : users.lookup c.user = some pw) :
+    checkAuth Policy.current concreteLeaves enc c.realm method users (some (c.header md5Hex pw method)) = .ok c.user
+    ∧ digestAuth Policy.current concreteLeaves c.realm method users (some (c.header md5Hex pw method)) = .letThrough := by
+  have h1 := (digest_client_concrete c hc pw enc c.realm method users).2 ⟨rfl, pw, hl, rfl⟩
+  have h2 := (digest_client_concrete c hc pw .dflt c.realm method users).2 ⟨rfl, pw, hl, rfl⟩
+  exact ⟨h1, by simp [digestAuth, h2, Out.truthy]⟩
+
+/-- ... and a user without a table entry is never accepted, whatever password it used. -/
+theorem digest_client_unknown_refused (c : Client) (hc : c.ok = true) (pw : Str)
+    (enc : Enc) (realm method : Str) (users : List (Str × Str)) (hl : users.lookup c.user = none) :
+    checkAuth Policy.current concreteLeaves enc realm method users (some (c.header md5Hex pw method)) ≠ .ok c.user := by
+  intro h
+  obtain ⟨_, p, hp, _⟩ := (digest_client_concrete c hc pw enc realm method users).1 h
+  rw [hl] at hp
+  cases hp
+
+/-- non-vacuity of `digest_concrete` / `digest_client_*`: a qop=auth MD5-sess client whose
+    user, realm and cnonce need quoted-pairs is accepted; the parameters are well-formed -/
+example :
+    let c : Client := ⟨"al\"ice".toList, "my, realm".toList, "n0".toList, "/a?b=\"c\"".toList, some true,
+                       some ("00000001".toList, "c\\n".toList)⟩
+    c.ok = true ∧ (∀ i ∈ c.items [], i.ok = true) ∧ ((c.items []).map (·.k)).Nodup
+      ∧ wellFormedKV (itemsKV (c.items [])) = true := by decide
+
+/-- non-vacuity of `digest_client_accepted` / `digest_client_unknown_refused`: the header text of
+    that client is accepted with the table's password, and not when the table lacks the user -/
+example :
+    let c : Client := ⟨"al\"ice".toList, "my, realm".toList, "n0".toList, "/".toList, none, none⟩
+    checkAuth Policy.current concreteLeaves .dflt c.realm "GET".toList [(c.user, "pw".toList)]
+        (some (c.header md5Hex "pw".toList "GET".toList)) = .ok c.user
+    ∧ checkAuth Policy.current concreteLeaves .dflt c.realm "GET".toList [("bob".toList, "pw".toList)]
+        (some (c.header md5Hex "pw".toList "GET".toList)) ≠ .ok c.user :=
+  ⟨(digest_client_accepted _ (by decide) _ _ _ _ (by decide)).1,
+   digest_client_unknown_refused _ (by decide) _ _ _ _ _ (by decide)⟩
 
 /-! ## Session binding -/
 open CV.Session in
